@@ -2318,8 +2318,12 @@ ure_exec(ure_dfa_t dfa, int flags, ucs2_t *text, unsigned long textlen,
       if (stp->accepting == 0) {
 	/*
 	 * If the last state was not accepting, then reset
-	 * and start over.
+	 * and start over.  A partial match which failed may hide a
+	 * match starting within it ("ab" in "aab"), so resume right
+	 * after its first character, not after the one which failed.
 	 */
+	if (ms != (unsigned long) ~0)
+	  sp = text + ms + 1;
 	stp = dfa->states;
 	ms = me = ~0;
       } else
